@@ -23,7 +23,7 @@ RULE = ("E1 x fault sequences: accounts (built-in per region, custom with '+@_')
         "verifies signature, constant fields, time stamp, login-id/password derivation and session id of EVERY request. Oracle: no "
         "request rejected by the server; attempts per request as the retry contract says; (token,key) of the exact match only; "
         "failures are CloudError. Discover.discover(auto_connect=True) against a simulated V3 device whose credentials are "
-        "registered under the little- or big-endian udpid (ids include some whose udpid starts or ends with a zero byte) must end authenticated with them. non-trivial = every flow")
+        "registered under the little- or big-endian udpid, also as the second discovery of a process with another region / account / a rotated session (ids include some whose udpid starts or ends with a zero byte) must end authenticated with them. non-trivial = every flow")
 ASSUMPTIONS = ["the reference server encodes the NetHome Plus contract as implemented by known-working clients (sign = sha256(path + "
                "sorted query + app key), password = sha256(loginId + sha256(pw) + app key))",
                "like the real cloud, the server answers an unregistered udpid with an entry that the device will not accept"]
@@ -32,7 +32,7 @@ PATTERNS = [("ok",), ("timeout", "ok"), ("timeout", "timeout", "ok"), ("timeout"
             ("302",), ("timeout", "404"), ("proto",), ("timeout", "decode")]
 EPS = ["/v1/user/login/id/get", "/v1/user/login", "/v1/iot/secure/getToken"]
 ACCOUNTS = [("US", None, None), ("DE", None, None), ("KR", None, None), ("US", "user+tag@example_mail.com", "pa55_word+@"),
-            ("DE", "a@b.c", "x"), ("US", "first last&co=1%@example.com", "pass word")]
+            ("DE", "a@b.c", "x"), ("US", "first last&co=1%@example.com", "pass word"), ("KR", "x@y.z", " correct horse battery ")]
 
 
 def bounds(tier):
@@ -45,6 +45,7 @@ def shards(tier):
     out += [("lists", a, 0) for a in range(len(ACCOUNTS))]
     out += [("discover", i, 0) for i in range(4)]
     out += [("discover2", i, 0) for i in range(len(PATTERNS))]
+    out += [("discover3", i, 0) for i in range(4)]
     return out
 
 
@@ -197,6 +198,8 @@ def run_shard(shard, tier) -> Stats:
                         st.ev(("list", a, did, endian, label, order_variant), "match" if want_i is not None else "CloudError", True)
     elif kind == "discover2":
         run_discover2(st, a)
+    elif kind == "discover3":
+        run_discover3(st, a)
     else:
         run_discover(st, a)
     st.reruns += det.reruns
@@ -270,6 +273,66 @@ def special_ids():
     return tuple(_SPECIAL)
 
 
+def run_discover3(st: Stats, variant: int):
+    """Two discoveries in one process: another region / account, or the same account after the server dropped the first session."""
+    scen = [("region", ACCOUNTS[0], ACCOUNTS[1]), ("region", ACCOUNTS[1], ACCOUNTS[2]), ("account", ACCOUNTS[3], ACCOUNTS[4]),
+            ("session", ACCOUNTS[0], ACCOUNTS[0])][variant]
+    label, acc1, acc2 = scen
+    w = World()
+    try:
+        servers, devs = [], []
+        for k, acc in enumerate((acc1, acc2)):
+            region, account, password = creds_for(acc)
+            did = 0x0000_0C0C_0000_0001 + k
+            token, key = filler(f"c19/3t{k}", 64), filler(f"c19/3k{k}", 32)
+            srv = RefCloud(account, password, [{"udpId": udpid_hex(did, "little"), "token": token.hex(), "key": key.hex()}],
+                           now_stamp=stamp(w), bogus_for_unknown=True)
+            if label == "session" and k == 1:
+                srv = servers[0]           # same server, same account ...
+                srv.tokens.append({"udpId": udpid_hex(did, "little"), "token": token.hex(), "key": key.hex()})
+            servers.append(srv)
+            ip = f"10.3.2.{k + 7}"
+            w.net.listen(ip, 6444, SimDevice(version=3, token=token, key=key, device_id=did, ac=RefAC({"temp": 21.0 + k})))
+            devs.append((did, ip, token, key))
+        results = []
+
+        async def drive():
+            for k, acc in enumerate((acc1, acc2)):
+                did, ip, token, key = devs[k]
+                w.net.udp_responder = sd.Population([sd.Host(ip, sd.reply(3, did, ip, 6444, "S" * 32, f"net_ac_00B{k}"))])
+                if label == "session" and k == 1:
+                    # ... which has meanwhile dropped the session of the first discovery
+                    servers[0].logged_in = False
+                    servers[0].session_id = "sess-rotated-0123456789"
+                try:
+                    r = await Discover.discover(region=acc[0], account=acc[1], password=acc[2], auto_connect=True,
+                                                get_async_client=servers[k].client_factory())
+                    results.append(("ok", [(d.id, d.token, d.key, d.online) for d in r]))
+                except BaseException as e:  # noqa: BLE001
+                    results.append((type(e).__name__, str(e)[:80]))
+
+        out = w.run(drive())
+        case = {"kind": "discover3", "scenario": label, "variant": variant}
+        prob = None
+        for k, srv in enumerate(servers[:1] if label == "session" else servers):
+            if check_server(st, {**case, "server": k}, srv, "discover3"):
+                prob = "rejected"
+        if prob is None:
+            if out[0] != "ok":
+                prob = f"driver raised {type(out[1]).__name__}"
+            else:
+                for k, res in enumerate(results):
+                    did, ip, token, key = devs[k]
+                    if res != ("ok", [(did, token.hex(), key.hex(), True)]):
+                        prob = f"discovery {k + 1} did not authenticate its device with the credentials registered for this account: {str(res)[:100]}"
+                        break
+        if prob and prob != "rejected":
+            st.violation(f"discover3 ({label}): " + prob.split(":")[0], case, "each discovery logs in for its own region/account/session", prob)
+        st.ev(("disc3", variant), "ok" if not prob else "failed", True)
+    finally:
+        w.close()
+
+
 def run_discover(st: Stats, variant: int):
     """auto_connect discovery of a V3 device registered under the little- or big-endian udpid."""
     for did in (0x0000_1122_3344_5566 & (2 ** 48 - 1), 1, 0xA1B2C3D4E5F6, 0x00FF00FF00FF) + special_ids():
@@ -323,7 +386,9 @@ def replay(case):
         lst = dict((l, t) for l, t, _ in token_lists(udpid))[case["list"]]
         out, srv = run_flow(tuple(case["account"]), {}, lst, udpid)
         return {"outcome": str(out)[:200], "server_problems": srv.problems}
-    if case["kind"] == "discover2":
+    if case["kind"] == "discover3":
+        run_discover3(st, case["variant"])
+    elif case["kind"] == "discover2":
         for i in range(len(PATTERNS)):
             run_discover2(st, i)
     else:
